@@ -83,7 +83,7 @@ def required_hits(tier):
 def gen_cases(rng, tier, shard, nshards):
     quick = tier == 'quick'
     yield {'fam': 'legacy', 'part': shard, 'parts': nshards, 'seed': rng.getrandbits(48)}
-    if shard == 0 or not quick:
+    if shard == nshards - 1 or not quick:      # last shard: its (large) witnesses come last when shards are merged
         yield {'fam': 'tx', 'seed': rng.getrandbits(48), 'nin': 260 if quick else rng.choice([253, 260, 300]), 'mode': 'manual',
                'okind': 'pay'}
     ntx = 28 if quick else 900
@@ -165,6 +165,7 @@ def check_inputs(rec, raw, spent, ctx):
     """A1 on every input of `raw`.  spent: {(txid, nout): script bytes}.  returns (#verified, set of spent classes, #addresses)"""
     m = minitx.parse(raw)
     verified, classes, hashes = 0, set(), set()
+    diagnosed, variant = 0, 'not-diagnosed'
     for i, txin in enumerate(m['inputs']):
         key = (txin['txid'], txin['nout'])
         if key not in spent:
@@ -203,7 +204,9 @@ def check_inputs(rec, raw, spent, ctx):
         digest = sighash.digest_all(raw, i, code)
         ok, why = ecdsa_verify_der(pub, sig[:-1], digest)
         if not ok:
-            variant = diagnose(raw, i, code, pub, sig[:-1], cls)
+            if diagnosed < 2:       # naming the mechanism costs many verifications: first two failing inputs of a transaction only
+                variant = diagnose(raw, i, code, pub, sig[:-1], cls)
+                diagnosed += 1
             rec.violation(f'C04/A1/signature-does-not-verify/{cls}/{variant}',
                           f'input {i} of {len(m["inputs"])} (spends {cls}): DER signature does not verify with ecdsa over the reference '
                           f'SIGHASH_ALL digest {digest.hex()} ({why}); verifies instead over: {variant}', wit)
@@ -234,9 +237,8 @@ def diagnose(raw, i, code, pub, der, cls):
              ('raw-transaction', sighash.sha256d(raw))]
     if cls != 'p2pkh' and sighash.p2pkh_tail(code):
         cands.append(('p2pkh-tail-only-as-script-code', sighash.digest_all(raw, i, b'\x76\xa9\x14' + sighash.p2pkh_tail(code) + b'\x88\xac')))
-    for k in range(len(m['inputs'])):
-        if k != i:
-            cands.append(('digest-of-another-input', sighash.digest_all(raw, k, code)))
+    for k in [k for k in range(len(m['inputs'])) if k != i][:6]:
+        cands.append(('digest-of-another-input', sighash.digest_all(raw, k, code)))
     for name, dg in cands:
         if ecdsa_verify_der(pub, der, dg)[0]:
             return name
@@ -1163,8 +1165,9 @@ def _run_legacy(rec, case):
         if high_s and ok:
             rec.hit('A4.high_s_validates')
         rec.hit('A4.format.' + fmt)
-        rec.case(['legacy', name, part], nontrivial=True, sample={'fam': 'legacy', 'pair': name, 'format': fmt, 'high_s': high_s,
-                                                                   'validates': ok, 'channel_claim_id': chash[::-1].hex()})
+        rec.case(['legacy', name, part], nontrivial=True,
+                 sample={'fam': 'legacy', 'pair': name, 'format': fmt, 'high_s': high_s, 'validates': ok, 'channel_claim_id': chash[::-1].hex(),
+                         'signature': env['signature'].hex()} if part == pi else None)
         if not ok:
             continue
         others = [bytes.fromhex(q['channel_tx']) for qi, q in enumerate(pairs) if qi != pi]
